@@ -244,6 +244,9 @@ def run(chk, replay=None):
             crash = None
             if rc == "timeout":
                 crash = "does not terminate within 20 s"
+            elif "memory allocation of" in out:
+                m = re.search(r"memory allocation of (\d+) bytes failed", out)
+                crash = f"aborts: memory allocation of {m.group(1) if m else '?'} bytes failed"
             elif "panicked at" in out or "RUST_BACKTRACE" in out:
                 m = re.search(r"panicked at ([^\n]*)", out)
                 crash = "panics: " + (m.group(1)[:160] if m else out.strip()[-160:])
